@@ -118,6 +118,27 @@ func init() {
 		op := func() *Obs { return w.Token(f, w.AuthFor("A")) }
 		return []func() *Obs{op, op}, true
 	}))
+	// the same with the library's own openid.DefaultSession as session implementation and an OpenID Connect grant
+	oidSess := Profile{Session: "openid"}
+	registerScenario(c19APIScenario("refresh-refresh-openid-session", oidSess, func(w *World) ([]func() *Obs, bool) {
+		code := c19Authz(w, "A", "code", "openid offline a").Param("code")
+		o := w.Token(url.Values{"grant_type": {"authorization_code"}, "code": {code}, "redirect_uri": {"https://A.example/cb"}}, w.AuthFor("A"))
+		o = w.Token(url.Values{"grant_type": {"refresh_token"}, "refresh_token": {o.Str("refresh_token")}}, w.AuthFor("A"))
+		f := url.Values{"grant_type": {"refresh_token"}, "refresh_token": {o.Str("refresh_token")}}
+		op := func() *Obs { return w.Token(f, w.AuthFor("A")) }
+		return []func() *Obs{op, op}, true
+	}))
+	registerScenario(c19APIScenario("refresh-introspect-openid-session", oidSess, func(w *World) ([]func() *Obs, bool) {
+		code := c19Authz(w, "A", "code", "openid offline a").Param("code")
+		o := w.Token(url.Values{"grant_type": {"authorization_code"}, "code": {code}, "redirect_uri": {"https://A.example/cb"}}, w.AuthFor("A"))
+		at, rt := o.Str("access_token"), o.Str("refresh_token")
+		return []func() *Obs{
+			func() *Obs {
+				return w.Token(url.Values{"grant_type": {"refresh_token"}, "refresh_token": {rt}}, w.AuthFor("A"))
+			},
+			func() *Obs { _, io := w.Active(at); return io },
+		}, true
+	}))
 	registerScenario(c19APIScenario("refresh-revoke-introspect", def, func(w *World) ([]func() *Obs, bool) {
 		o := w.Token(url.Values{"grant_type": {"password"}, "username": {"peter"}, "password": {"pw-peter"}, "scope": {"offline a"}}, w.AuthFor("A"))
 		rt, at := o.Str("refresh_token"), o.Str("access_token")
